@@ -159,8 +159,15 @@ def run(ctx, prop):
     n_cases = {"quick": 60, "thorough": 600}[ctx.tier]
     opts = gen.Opts(max_ifaces=5, max_depth=4, max_methods=5, max_params=3)
     cases = corpus_cases(prop)
+    from .validation import permute_decls
     for i in range(n_cases):
-        cases.append(gen.gen_case(ctx.rng, opts, cid=f"{prop}-{ctx.seed}-{i}"))
+        c_ = gen.gen_case(ctx.rng, opts, cid=f"{prop}-{ctx.seed}-{i}")
+        if i % 2:
+            # declarations in any order the front end accepts (a base may come after its derived
+            # interface): numbers depend on the hierarchy, not on the position in the file
+            c_ = permute_decls(c_, ctx.rng)
+            c_["id"] = f"{prop}-{ctx.seed}-{i}-permuted"
+        cases.append(c_)
     for i in range(4):
         cases.append(gen.big_iface_case(ctx.rng, cid=f"{prop}-big-{ctx.seed}-{i}", grouped=(i % 2 == 1)))
     oracle_fail, disagree = [], []
